@@ -5,6 +5,17 @@ ROOT = os.path.dirname(os.path.dirname(os.path.abspath(__file__)))
 CORE, BIN, PY3, BS, EXPR, CONT = 'construct/core.py', 'construct/lib/binary.py', 'construct/lib/py3compat.py', 'construct/lib/bitstream.py', 'construct/expr.py', 'construct/lib/containers.py'
 MUTANTS = [
     # id, property, file, old, new
+    ('xor-parse-cycle', 'C15', CORE, "                data = bytes((b ^ p) for b,p in zip(data, itertools.cycle(pad)))\n        substream", "                data = bytes((b ^ p) for b,p in zip(data, itertools.cycle(pad[::-1])))\n        substream"),
+    ('xor-build-zero-shortcut', 'C15', CORE, "            if not (pad == 0):\n                data = bytes((b ^ pad) for b in data)\n        if isinstance(pad, bytes):\n            if not (len(pad) <= 64 and pad == bytes(len(pad))):\n                data = bytes((b ^ p) for b,p in zip(data, itertools.cycle(pad)))\n        stream_write",
+     "            if not (pad == 0):\n                data = bytes((b ^ pad) for b in data)\n        if isinstance(pad, bytes):\n            if not (len(pad) <= 64 and pad[:1] == bytes(1)):\n                data = bytes((b ^ p) for b,p in zip(data, itertools.cycle(pad)))\n        stream_write"),
+    ('rot-build-not-negated', 'C15', CORE, "        amount = -amount % (group * 8)", "        amount = amount % (group * 8)"),
+    ('rot-pair-index', 'C15', CORE, "indices_pairs = [ ((i+amount_bytes) % group, (i+1+amount_bytes) % group) for i in range(group)]\n            data = bytes((data[i+k1] << amount1) & 0xff | (data[i+k2] >> amount2) for i in range(0,len(data),group) for k1,k2 in indices_pairs)\n\n        return",
+     "indices_pairs = [ ((i+amount_bytes) % group, (i+amount_bytes-1) % group) for i in range(group)]\n            data = bytes((data[i+k1] << amount1) & 0xff | (data[i+k2] >> amount2) for i in range(0,len(data),group) for k1,k2 in indices_pairs)\n\n        return"),
+    ('rot-amount2', 'C15', CORE, "            amount2 = 8 - amount1\n            indices_pairs = [ ((i+amount_bytes) % group, (i+1+amount_bytes) % group) for i in range(group)]\n            data = bytes((data[i+k1] << amount1) & 0xff | (data[i+k2] >> amount2) for i in range(0,len(data),group) for k1,k2 in indices_pairs)\n\n        stream_write",
+     "            amount2 = 7 - amount1\n            indices_pairs = [ ((i+amount_bytes) % group, (i+1+amount_bytes) % group) for i in range(group)]\n            data = bytes((data[i+k1] << amount1) & 0xff | (data[i+k2] >> amount2) for i in range(0,len(data),group) for k1,k2 in indices_pairs)\n\n        stream_write"),
+    ('rot-length-check', 'C15', CORE, "        data = stream_read_entire(stream, path)\n\n        if len(data) % group != 0:\n            raise RotationError", "        data = stream_read_entire(stream, path)\n\n        if len(data) % group > 1:\n            raise RotationError"),
+    ('rot-bytes-only', 'C15', CORE, "            indices = [(i + amount_bytes) % group for i in range(group)]\n            data = bytes(data[i+k] for i in range(0,len(data),group) for k in indices)\n\n        else:\n            amount1 = amount % 8\n            amount2 = 8 - amount1\n            indices_pairs = [ ((i+amount_bytes) % group, (i+1+amount_bytes) % group) for i in range(group)]\n            data = bytes((data[i+k1] << amount1) & 0xff | (data[i+k2] >> amount2) for i in range(0,len(data),group) for k1,k2 in indices_pairs)\n\n        return",
+     "            indices = [(i - amount_bytes) % group for i in range(group)]\n            data = bytes(data[i+k] for i in range(0,len(data),group) for k in indices)\n\n        else:\n            amount1 = amount % 8\n            amount2 = 8 - amount1\n            indices_pairs = [ ((i+amount_bytes) % group, (i+1+amount_bytes) % group) for i in range(group)]\n            data = bytes((data[i+k1] << amount1) & 0xff | (data[i+k2] >> amount2) for i in range(0,len(data),group) for k1,k2 in indices_pairs)\n\n        return"),
     ('varint-build-ge', 'C03', CORE, "while x > 0b01111111:", "while x >= 0b01111111:"),
     ('varint-parse-mask', 'C03', CORE, "acc.append(b & 0b01111111)", "acc.append(b & 0b00111111)"),
     ('varint-parse-cont', 'C03', CORE, "if b & 0b10000000 == 0:", "if b & 0b01000000 == 0:"),
